@@ -214,3 +214,20 @@ func HasAt(c *Cons) bool {
 	}}.walkC(c)
 	return found
 }
+
+// ManyFields: some constraint struct has three or more non-zero fields.
+func ManyFields(c *Cons) bool {
+	found := false
+	visitor{cons: func(c *Cons) {
+		n := 0
+		for _, set := range []bool{c.Op != "", c.Anything, c.Camli != "", c.AnyCamli, c.Pn != nil, c.File != nil, c.Dir != nil, c.BlobSize != nil, c.Prefix != ""} {
+			if set {
+				n++
+			}
+		}
+		if n >= 3 {
+			found = true
+		}
+	}}.walkC(c)
+	return found
+}
